@@ -7,8 +7,10 @@ import (
 	"bytes"
 	"fmt"
 	"path/filepath"
+	"reflect"
 	"sort"
 	"strings"
+	"unsafe"
 
 	"github.com/pilosa/pilosa/internal/vx"
 	"github.com/pilosa/pilosa/roaring"
@@ -128,15 +130,18 @@ func vxPilosaRoaring(bits []vxBit) []byte {
 // vxFragHidden renders the hidden state of a fragment that can influence future behaviour.
 func vxFragHidden(f *fragment) string {
 	var sb strings.Builder
+	byKey := map[uint64]*roaring.Container{}
 	cit, _ := f.storage.Containers.Iterator(0)
 	for cit.Next() {
 		k, c := cit.Value()
+		byKey[k] = c
 		if c == nil {
 			fmt.Fprintf(&sb, "%d:nil,", k)
 			continue
 		}
 		fmt.Fprintf(&sb, "%d:%d:%d:%v,", k, vxContainerType(c), c.N(), c.Mapped())
 	}
+	sb.WriteString(vxLookaside(f.storage, byKey))
 	if sc, ok := f.rowCache.(*simpleCache); ok {
 		ks := make([]uint64, 0, len(sc.cache))
 		for k := range sc.cache {
@@ -160,6 +165,36 @@ func vxFragHidden(f *fragment) string {
 		}
 	}
 	return sb.String()
+}
+
+// vxLookaside renders the state of the storage bitmap's B-tree lookaside cache (last key looked up and
+// whether the cached container is still the one the tree holds for that key). The fields are
+// unexported in package roaring, so they are READ through reflection; if the implementation has no
+// such fields the state is simply not part of the fingerprint. Without it, two states that differ
+// only in a stale lookaside entry would be merged by the BFS although their futures differ.
+func vxLookaside(b *roaring.Bitmap, byKey map[uint64]*roaring.Container) string {
+	if b == nil || b.Containers == nil {
+		return ""
+	}
+	v := reflect.ValueOf(b.Containers)
+	if v.Kind() != reflect.Ptr || v.IsNil() || v.Elem().Kind() != reflect.Struct {
+		return ""
+	}
+	lk, lc := v.Elem().FieldByName("lastKey"), v.Elem().FieldByName("lastContainer")
+	if !lk.IsValid() || !lc.IsValid() || lk.Kind() != reflect.Uint64 || lc.Kind() != reflect.Ptr {
+		return ""
+	}
+	key := lk.Uint()
+	state := "same"
+	switch cur, ok := byKey[key]; {
+	case lc.IsNil():
+		state = "nil"
+	case !ok:
+		state = "orphan" // the tree no longer has this key but the lookaside still holds a container
+	case uintptr(unsafe.Pointer(cur)) != lc.Pointer():
+		state = "stale"
+	}
+	return fmt.Sprintf("|la=%d,%s", key, state)
 }
 
 func vxContainerType(c *roaring.Container) int {
